@@ -360,7 +360,7 @@ func sharedValue(v ssa.Value, top *ssa.Function) bool {
 func c18Rotation(c *Ctx, dcs []dialClosure) {
 	const rule = "a dial to a mapped address picks addrs[n % len(addrs)] where n is the result of this call's single atomic Add on that mapping's counter (inline or in a helper method of the mapping entry); unmapped addresses are passed through unchanged"
 	for _, dc := range dcs {
-		if !strings.Contains(shortFn(dc.fn), "ConnectTo") {
+		if !strings.Contains(shortFn(dc.fn), "ConnectTo") && !strings.Contains(shortFn(dc.option), "ConnectTo") {
 			continue
 		}
 		key := "atomic-rotation:" + shortFn(dc.fn)
@@ -434,7 +434,7 @@ func c18Rotation(c *Ctx, dcs []dialClosure) {
 			var classify func(v ssa.Value)
 			classify = func(v ssa.Value) {
 				switch {
-				case v == ssa.Value(dc.fn.Params[2]):
+				case v == ssa.Value(userParam(dc.fn, 2)):
 					nOrig++
 				case v == pick:
 					nPick++
